@@ -114,6 +114,9 @@ pub struct Config {
     pub kind: HashMap<String, i64>,
     #[serde(default)]
     pub cb_reads: bool,
+    /// finer park points for run-time registration (after the receive, before the reducers lock)
+    #[serde(default)]
+    pub fine_reg: bool,
 }
 fn store_name() -> String {
     "store".into()
@@ -465,6 +468,7 @@ impl Selector<St, i64> for KindSel {
 pub fn build_store(env: &Arc<Env>) -> Result<Arc<TStore>, StoreError> {
     let cfg = &env.cfg;
     sched().hint_store(&env.prefix);
+    sched().set_fine_reg(cfg.fine_reg);
     let mut b = StoreBuilder::new(St::default())
         .with_name(cfg.name.clone())
         .with_capacity(cfg.cap)
